@@ -80,6 +80,20 @@ impl<'de, R: Read<'de>> Deserializer<R> {
             .map(|code| code.and_then(|code| code.try_into()))
     }
 
+    /// Skips the element constructor of an array whose count is zero.
+    ///
+    /// `len` is the array's size field and `width` the width of its count
+    /// field (which has already been read).
+    fn skip_empty_array_constructor(&mut self, len: usize, width: usize) -> Result<(), Error> {
+        let remaining = len.checked_sub(width).ok_or(Error::InvalidValue)?;
+        for _ in 0..remaining {
+            self.reader
+                .next()?
+                .ok_or_else(|| Error::unexpected_eof("Expecting array element constructor"))?;
+        }
+        Ok(())
+    }
+
     fn get_elem_code_or_read_format_code(&mut self) -> Option<Result<EncodingCodes, Error>> {
         match &self.elem_format_code {
             Some(c) => Some(Ok(c.clone())),
@@ -894,7 +908,12 @@ where
 
                 // If count is zero, jump to visitor
                 match count {
-                    0 => visitor.visit_seq(ArrayAccess::new(self, len, count)),
+                    0 => {
+                        // An empty array may still carry its element constructor.
+                        // `len` counts the count field and the constructor
+                        self.skip_empty_array_constructor(len, 1)?;
+                        visitor.visit_seq(ArrayAccess::new(self, 0, count))
+                    }
                     _ => {
                         let format_code = self
                             .read_format_code()
@@ -925,7 +944,12 @@ where
 
                 // If count is zero, jump to visitor
                 match count {
-                    0 => visitor.visit_seq(ArrayAccess::new(self, len, count)),
+                    0 => {
+                        // An empty array may still carry its element constructor.
+                        // `len` counts the count field and the constructor
+                        self.skip_empty_array_constructor(len, 4)?;
+                        visitor.visit_seq(ArrayAccess::new(self, 0, count))
+                    }
                     _ => {
                         let format_code = self
                             .read_format_code()
